@@ -26,10 +26,10 @@ CFGS = {
               # names that differ only in a character a file system treats specially: still two databases
               ('{"a.1", "a_1"}', "{1}", 9, 2, "ViewLast", None),
               # names that are a path, not a name: refused, and nothing appears in the data directory, next to it or above it
-              ('{"x/y", "x", ".."}', "{1}", 7, 2, "ViewLast", None)],
+              ('{"x/y", "x", ".."}', "{1}", 7, 2, "ViewN", None)],
     "thorough": [('{"a", "A", "b"}', "{1, 2}", 10, 2, "ViewLast2", 150000), ('{"a", "b", "c"}', "{1}", 8, 2, "ViewN", 150000), ('{"a", "b"}', "{1}", 13, 2, "ViewLast2", 150000),
                  ('{"d-1", "b"}', "{1}", 11, 2, "ViewLast", 100000), ('{"a.1", "a_1"}', "{1}", 11, 2, "ViewLast", 100000),
-                 ('{"mu1", "mu2"}', "{1}", 11, 2, "ViewLast", 100000), ('{"x/y", "x", ".."}', "{1}", 8, 2, "ViewLast", 100000)],
+                 ('{"mu1", "mu2"}', "{1}", 11, 2, "ViewLast", 100000), ('{"x/y", "x", ".."}', "{1}", 9, 2, "ViewN", 100000)],
 }
 
 
